@@ -5,7 +5,7 @@ snapshots, join-table read pattern.  JS leg on the language-neutral cases.
 """
 import random
 
-from .. import env
+from .. import env, util
 from ..gen import queries as gq
 from ..model import refsem
 from . import common
@@ -42,13 +42,15 @@ def classify(mech, case, got, ref):
 
 def plan(tier, seed):
     k = NSHARDS[tier]
-    return [{'k': k, 'i': i, 'n': CASES[tier] // k} for i in range(k)] + [{'kind': 'typed', 'i': i, 'n': 150 if tier == 'quick' else 1500} for i in range(2 if tier == 'quick' else 8)] + [{'kind': 'js-templates', 'n': 200 if tier == 'quick' else 2000}]
+    return [{'k': k, 'i': i, 'n': CASES[tier] // k} for i in range(k)] + [{'kind': 'typed', 'i': i, 'n': 150 if tier == 'quick' else 1500} for i in range(2 if tier == 'quick' else 8)] + [{'kind': 'js-templates', 'n': 200 if tier == 'quick' else 2000}, {'kind': 'py-fstrings', 'n': 300 if tier == 'quick' else 3000}]
 
 
 def run_shard(spec, res):
     ns = env.import_rbql()
     if spec.get('kind') == 'typed':
         return leg_typed(ns, res, spec)
+    if spec.get('kind') == 'py-fstrings':
+        return leg_py_fstrings(ns, res, spec)
     if spec.get('kind') == 'js-templates':
         return leg_js_templates(res, spec)
     rng = random.Random(spec['seed'] * 1000003 + spec['i'])
@@ -246,11 +248,60 @@ def leg_js_templates(res, spec):
         node.close()
 
 
+def leg_py_fstrings(ns, res, spec):
+    """Python f-strings in the query: a variable that occurs ONLY inside the f-strings of one clause (aN, a[N], a.name, a["name"], NR, NF, bN of a join) is still
+    a reference to the current record."""
+    rng = random.Random(spec['seed'] * 7919 + 29)
+    B = [['a', 'J'], ['b', 'K'], ['a', 'L']]
+    T = [
+        ("select f'{NR}/{NF}'", None, None, lambda A: [['%d/%d' % (i + 1, len(r))] for i, r in enumerate(A)]),
+        ("select a1 where f'{NF}' == '3'", None, None, lambda A: [[r[0]] for r in A if len(r) == 3]),
+        ("select *, f'<{NF:02d}>'", None, None, lambda A: [list(r) + ['<%02d>' % len(r)] for r in A]),
+        ("select f'{NF}' order by f'{NR:03d}' desc", None, None, lambda A: [[str(len(r))] for r in reversed(A)]),
+        ("select a3 where f'{a1}-{a2}' == 'a-b'", None, None, lambda A: [[r[2]] for r in A if (r[0], r[1]) == ('a', 'b')]),
+        ("select f\"{a[1]}|{a[3]}\", NR", None, None, lambda A: [['%s|%s' % (r[0], r[2]), i + 1] for i, r in enumerate(A)]),
+        ("select NR where f'{a.v}' == 'a' or f'{a.w}{a.k}' == 'ab'", ['k', 'v', 'w'], None, lambda A: [[i + 1] for i, r in enumerate(A) if r[1] == 'a' or r[2] + r[0] == 'ab']),
+        ("select a.k where f\"{a['v']}|{a['w']}\" != 'a|a'", ['k', 'v', 'w'], None, lambda A: [[r[0]] for r in A if (r[1], r[2]) != ('a', 'a')]),
+        ("select a1, b2 join b on a1 == b1 where f'{b2}' != 'J'", None, B, lambda A: [[r[0], b[1]] for r in A for b in B if b[0] == r[0] and b[1] != 'J']),
+        ("select f'{bNR}:{NR}', a2 join b on a1 == b1", None, B, lambda A: [['%d:%d' % (j + 1, i + 1), r[1]] for i, r in enumerate(A) for j, b in enumerate(B) if b[0] == r[0]]),
+        ("select a1, a2 order by f'{a2}'", None, None, lambda A: [[r[0], r[1]] for r in sorted(A, key=lambda r: r[1])]),
+        ("update a2 = f'{a1}!' where f'{a3}' == 'a'", None, None, lambda A: [[r[0], (r[0] + '!') if r[2] == 'a' else r[1], r[2]] for r in A]),
+        ("update a1 = f'{NU}/{NF}' where a2 != 'b'", None, None, None),
+        ("select distinct f'{a1}' where a2 != f'{a1}'", None, None, lambda A: [[v] for v in dict.fromkeys(r[0] for r in A if r[1] != r[0])]),
+        ("select top 2 f'{NF}{NR}'", None, None, lambda A: [['%d%d' % (len(r), i + 1)] for i, r in enumerate(A)][:2]),
+    ]
+    for n in range(spec['n']):
+        A = [[rng.choice(['a', 'b', 'ab', '', '10']) for _ in range(3)] for _ in range(rng.randrange(1, 7))]
+        q, cols, Bt, expf = T[n % len(T)]
+        if expf is None:
+            nu = 0
+            exp = []
+            for r in A:
+                if r[1] != 'b':
+                    nu += 1
+                    exp.append(['%d/%d' % (nu, len(r))] + r[1:])
+                else:
+                    exp.append(list(r))
+        else:
+            exp = expf(A)
+        out, err = [], None
+        try:
+            ns.rbql.query_table(q, [list(r) for r in A], out, [], None if Bt is None else [list(r) for r in Bt], cols, None)
+        except Exception as e:
+            err = '%s: %s' % (util.error_class(e), str(e)[:120])
+        res.evaluations += 1
+        res.count('py_fstring_runs')
+        res.nontrivial('py-fstring', q, repr(A))
+        if err is not None or out != exp:
+            res.violation('py:fstring-variable-not-bound', '[py] %s over %r -> %r (error %r) ; expected %r' % (q, A, out, err, exp), {'leg': 'py-fstrings', 'query_text': q, 'A': A, 'engine': 'py'})
+    res.sample({'leg': 'py-fstrings', 'queries': [t[0] for t in T[:4]]})
+
+
 def summarize(tier, seed, m):
     shapes = sorted(k[6:] for k in m['counters'] if k.startswith('shape:'))
     return {
-        'rule': 'structured SELECT queries (1-4 items over fields in 5 spellings, typed expressions, literals, *, a.*, b.*, * EXCEPT, UNNEST; WHERE; INNER/LEFT JOIN with 1-3 key pairs incl. NR/bNR; TOP) generated with a systematic sweep over the 64 clause combinations plus seeded random choices, on random tables of str/None cells (ragged, empty, up to 40 rows, 12 columns), with and without header; each executed through rbql.query with probe iterator/writer/registry and compared (rows exactly and in order, header, error class + record number) with the reference interpreter; the language-neutral ones also on the JS engine; a typed front-ends leg: dataframes (int64 / float64 / bool / object columns, all-numeric frames, integers beyond 2**53, a named index, a two-level named index) through DataframeIterator and sqlite tables (INTEGER / REAL / TEXT / BLOB / untyped columns with NULLs) through SqliteRecordIterator, ten select / where shapes each (two of them with the bare cell as the predicate, over columns holding NaN, inf, 0, 0.0, empty strings and NULLs), every emitted field compared with the cell by value AND type; a JS template-literal leg: ten select / where shapes whose items are template literals with column references inside ${...} and quote characters around them, and eleven shapes (WHERE, ORDER BY, JOIN + WHERE, UPDATE, DISTINCT, named columns) whose variables occur only inside the template literals of one clause. distinct_nontrivial = distinct (query text, tables) with a non-empty reference result or a predicted error.',
-        'required': ['py_cases', 'emitted_records_observed', 'js_cases', 'typed_front_end_runs:pandas', 'typed_front_end_runs:sqlite', 'js_template_literal_runs'],
+        'rule': 'structured SELECT queries (1-4 items over fields in 5 spellings, typed expressions, literals, *, a.*, b.*, * EXCEPT, UNNEST; WHERE; INNER/LEFT JOIN with 1-3 key pairs incl. NR/bNR; TOP) generated with a systematic sweep over the 64 clause combinations plus seeded random choices, on random tables of str/None cells (ragged, empty, up to 40 rows, 12 columns), with and without header; each executed through rbql.query with probe iterator/writer/registry and compared (rows exactly and in order, header, error class + record number) with the reference interpreter; the language-neutral ones also on the JS engine; a typed front-ends leg: dataframes (int64 / float64 / bool / object columns, all-numeric frames, integers beyond 2**53, a named index, a two-level named index) through DataframeIterator and sqlite tables (INTEGER / REAL / TEXT / BLOB / untyped columns with NULLs) through SqliteRecordIterator, ten select / where shapes each (two of them with the bare cell as the predicate, over columns holding NaN, inf, 0, 0.0, empty strings and NULLs), every emitted field compared with the cell by value AND type; a JS template-literal leg: ten select / where shapes whose items are template literals with column references inside ${...} and quote characters around them, and eleven shapes (WHERE, ORDER BY, JOIN + WHERE, UPDATE, DISTINCT, named columns) whose variables occur only inside the template literals of one clause; a Python f-string leg: fifteen shapes whose variables (aN, a[N], a.name, a["name"], bN, NR, NF, NU, bNR) occur only inside f-strings (select list, WHERE, ORDER BY, JOIN + WHERE, UPDATE, DISTINCT, TOP). distinct_nontrivial = distinct (query text, tables) with a non-empty reference result or a predicted error.',
+        'required': ['py_cases', 'emitted_records_observed', 'js_cases', 'typed_front_end_runs:pandas', 'typed_front_end_runs:sqlite', 'js_template_literal_runs', 'py_fstring_runs'],
         'extra': {'shapes_seen': shapes},
         'assumptions': ['rv/model/refsem.py is the relational semantics of the statement', 'expressions are drawn from the typed vocabulary of rv/model/qast.py'],
     }
